@@ -81,6 +81,15 @@ pub fn filename_navigate(
 
 	path_components.remove(path_components.len() - 1);
 
+	// Collapse empty components, except for a leading one
+	// (which marks an absolute path)
+	let mut component_index = 0;
+	path_components.retain(|s|
+	{
+		component_index += 1;
+		component_index == 1 || s.len() > 0
+	});
+
 	// Remove all current components if new path is absolute
 	if nav.starts_with("/")
 	{
